@@ -8,6 +8,7 @@ import (
 	"go/types"
 	"reflect"
 	"os"
+	"os/exec"
 	"path/filepath"
 	"regexp"
 	"sort"
@@ -119,6 +120,36 @@ func loadFindings(path string) []finding {
 		out = append(out, f)
 	}
 	return out
+}
+
+// gConformance is the report of tools/conformance.py (thorough tier), nil when it was not run.
+var gConformance *conformanceReport
+
+type conformanceReport struct {
+	What    string `json:"what"`
+	Corpus  map[string]int `json:"corpus"`
+	Calls   int    `json:"oracle_calls"`
+	Results []struct {
+		Kind, Name, Status, Why string
+		Instances, Calls        int
+		Counterexample          interface{}
+	} `json:"results"`
+	Error string `json:"error,omitempty"`
+}
+
+func runConformance(workDir string) *conformanceReport {
+	os.MkdirAll(workDir, 0o755) //nolint:errcheck
+	out := filepath.Join(workDir, "conformance.json")
+	cmd := exec.Command("python3", filepath.Join(*flagVerif, "tools", "conformance.py"), "--json", out)
+	cmd.Env = append(os.Environ(), "GOVC_REPO="+*flagRepo)
+	b, err := cmd.CombinedOutput()
+	rep := &conformanceReport{}
+	if data, e := os.ReadFile(out); e == nil {
+		json.Unmarshal(data, rep) //nolint:errcheck
+	} else {
+		rep.Error = fmt.Sprintf("conformance tool did not produce a report: %v: %s", err, trunc(string(b), 600))
+	}
+	return rep
 }
 
 // gWorkDir is the scratch directory of this run (SMT scripts, replay files).
@@ -320,7 +351,18 @@ func main() {
 			}
 		}
 	}
+	// thorough tier: bounded conformance tests of the assumed library contracts and axioms run beside the proofs
+	confDone := make(chan struct{})
+	if ring {
+		go func() {
+			defer close(confDone)
+			gConformance = runConformance(workDir)
+		}()
+	} else {
+		close(confDone)
+	}
 	dischargeAll(queries, C, workDir, timeout, tier == "thorough", 16)
+	<-confDone
 
 	// fold into obligations
 	byName := map[string]*oblig{}
